@@ -40,12 +40,21 @@ def Abs.write (a : Abs) (shard : Nat) (name : Bytes) (tags : Tags) (pts : List (
     a.map fun e => if e.shard = shard ∧ e.name = name ∧ e.tags = tags then { e with pts := pts.foldl setPt e.pts } else e
   else a ++ [⟨shard, name, tags, pts.foldl setPt []⟩]
 
+/-- is the predicate of the delete true of the series (`none` = no predicate: every series) -/
+def predTrue (pred : Option Pred) (name : Bytes) (tags : Tags) : Bool :=
+  match pred with
+  | none => true
+  | some p => Spec.C16.evalPred name tags p
+
+/-- the points outside `[lo, hi]` -/
+def outside (lo hi : Int) (pts : List (Int × Int)) : List (Int × Int) :=
+  pts.filter fun q => !(decide (lo ≤ q.1 ∧ q.1 ≤ hi))
+
+def cutEntry (lo hi : Int) (pred : Option Pred) (e : Entry) : Entry :=
+  if predTrue pred e.name e.tags then { e with pts := outside lo hi e.pts } else e
+
 /-- abs' = abs minus {(k, t) | pred k ∧ lo ≤ t ≤ hi}, on every shard -/
-def Abs.delete (a : Abs) (lo hi : Int) (pred : Option Pred) : Abs :=
-  a.map fun e =>
-    if (match pred with | none => true | some p => Spec.C16.evalPred e.name e.tags p) then
-      { e with pts := e.pts.filter fun q => !(lo ≤ q.1 ∧ q.1 ≤ hi) }
-    else e
+def Abs.delete (a : Abs) (lo hi : Int) (pred : Option Pred) : Abs := a.map (cutEntry lo hi pred)
 
 /-! ### observations -/
 
@@ -59,7 +68,20 @@ inductive Ans where
   | other (s : String)
 deriving Repr
 
-def samePts (a b : List (Int × Int)) : Bool := a.all b.contains && b.all a.contains && a.length = b.length
+def keyOf (e : Entry) : Bytes × Tags := (e.name, e.tags)
+
+/-- the remaining points of a series in a shard, by the history (`Abs.write` keeps one entry per
+    shard and series) -/
+def absPts (a : Abs) (sh : Nat) (k : Bytes × Tags) : List (Int × Int) :=
+  match a.find? (fun e => e.shard = sh ∧ keyOf e = k) with
+  | some e => e.pts
+  | none => []
+
+/-- the series of a shard that have data left -/
+def liveKeys (a : Abs) (sh : Nat) : List (Bytes × Tags) :=
+  (a.filter fun e => e.shard = sh ∧ !e.pts.isEmpty).map keyOf
+
+def sameSet (x y : List (Int × Int)) : Bool := x.all y.contains && y.all x.contains
 
 def ascTimes : List (Int × Int) → Bool
   | [] => true
@@ -70,25 +92,22 @@ inductive Verd where
   | ok | pointsWrong | listingWrong | noAnswer
 deriving Repr, DecidableEq
 
-def keyOf (e : Entry) : Bytes × Tags := (e.name, e.tags)
-
 def judgeObs (a : Abs) (op : Op) (ans : Ans) : Verd :=
   match op, ans with
   | .read sh, .points l =>
-    let live := a.filter fun e => e.shard = sh ∧ !e.pts.isEmpty
-    -- exactly the remaining points of every series, each series once, times ascending
-    if l.all (fun x => ascTimes x.2 &&
-          (live.filter fun e => keyOf e = x.1).length = 1 &&
-          live.any fun e => keyOf e = x.1 && samePts e.pts x.2) &&
-       live.all (fun e => l.any fun x => x.1 = keyOf e) &&
-       l.length = live.length
+    -- every series with data exactly once, with exactly its remaining points, times ascending
+    if decide (l.map (·.1)).Nodup &&
+       l.all (fun x => !x.2.isEmpty && ascTimes x.2 && sameSet (absPts a sh x.1) x.2) &&
+       (liveKeys a sh).all (fun k => (l.map (·.1)).contains k)
     then .ok else .pointsWrong
   | .ls sh, .ids l =>
-    let live := (a.filter fun e => e.shard = sh ∧ !e.pts.isEmpty).map keyOf
-    if l.all live.contains && live.all l.contains && l.length = live.length then .ok else .listingWrong
+    -- listed exactly the series with data
+    if decide l.Nodup && l.all (fun k => !(absPts a sh k).isEmpty) && (liveKeys a sh).all l.contains
+    then .ok else .listingWrong
   | .mn .nil_ none, .keys l =>
-    let live := (a.filter fun e => !e.pts.isEmpty).map (·.name)
-    if l.all live.contains && live.all l.contains && (l.eraseDups).length = l.length then .ok else .listingWrong
+    if decide l.Nodup && l.all (fun m => a.any fun e => e.name = m ∧ !e.pts.isEmpty) &&
+       (a.filter fun e => !e.pts.isEmpty).all (fun e => l.contains e.name)
+    then .ok else .listingWrong
   | .read _, _ | .ls _, _ | .mn .nil_ none, _ => .noAnswer
   | _, _ => .ok
 
